@@ -1141,6 +1141,43 @@ func (e *Exec) instrPhi(fr *Frame, st *State, x *ssa.Phi) {
 	e.setReg(fr, st, x, Val{T: acc})
 }
 
+// instrGo: the started goroutine is not followed, but if the function (or closure) it runs has a
+// contract, its preconditions are obligations of the go statement - evaluated on the arguments, with
+// the spawner's variables visible (a closure's contract speaks about the variables it captures under
+// their names) and with an EMPTY set of held locks (a new goroutine holds none).
 func (e *Exec) instrGo(fr *Frame, st *State, x *ssa.Go) {
-	e.sc.used["go statements: the started goroutine is not followed (only noted)"] = true
+	e.sc.used["go statements: the started goroutine is not followed; only its preconditions are checked where it is started"] = true
+	cc := &x.Call
+	if cc.IsInvoke() {
+		return
+	}
+	var fn *ssa.Function
+	switch c := cc.Value.(type) {
+	case *ssa.Function:
+		fn = c
+	case *ssa.MakeClosure:
+		fn, _ = c.Fn.(*ssa.Function)
+	}
+	if fn == nil {
+		return
+	}
+	fc := e.w.Contract[fullKeyOfFunc(fn)]
+	if fc == nil || len(fc.Requires) == 0 {
+		return
+	}
+	st2 := st.clone()
+	e.hset(st2, "G_held", "((as const (Array Int Bool)) false)")
+	env := e.specEnvAt(fr, st2)
+	env.old = st2
+	ps, _ := e.contractNames(fc, fn.Signature)
+	for i, a := range cc.Args {
+		if i < len(ps) {
+			env.vars[ps[i]] = e.val(fr, st, a)
+		}
+	}
+	env.oldVars = env.vars
+	for _, c := range fc.Requires {
+		f := e.specBool(env, c)
+		e.sc.oblig(st.reach, f, fmt.Sprintf("%s#go-pre.%s.%s", e.unit, shortKey(fc.Key), c.Label)+e.siteSuffix("go-pre."+shortKey(fc.Key)+"."+c.Label), "pre", fmt.Sprintf("precondition of %s where it is started as a goroutine: %s", fc.Key, c.Text), e.pos(x.Pos()))
+	}
 }
